@@ -10,7 +10,7 @@ MANIFEST = dict(
     design='6/C10')
 
 PROPS = ["Props.C10.C10_metrics_totals_exact", "Props.C10.C10_monitor_totals_exact", "Props.C10.C10_counters_exact_always",
-         "Props.C10.C10_max_load_compare_store_refuted", "Props.C10.C10_min_load_compare_store_refuted", "Props.C10.C10_max_single_attempt_refuted",
+         "Props.C10.C10_max_load_compare_store_refuted", "Props.C10.C10_min_load_compare_store_refuted", "Props.C10.C10_max_single_attempt_refuted", "Props.C10.C10_stale_retry_never_returns",
          "Props.C10.C10_results_sequential", "Props.C10.C10_footprint_race_free", "Props.C10.C10_common_lock_orders",
          "Props.C10.C10_no_deadlock_by_lock_order", "Props.C10.C10_never_deadlocked", "Props.C10.C10_reentrant_read_lock_refuted",
          "Props.C10.C10_lock_order_inversion_refuted"]
@@ -165,6 +165,19 @@ def witness_search(tabs, pkg, p, s, role):
         m = re.search(r"w%d\s*=\s*Some\s*(\[[^\]]*\])" % i, out)
         if m:
             return {"values": [a, b], "init": init, "true_value": want, "schedule": [int(x) for x in re.findall(r"\d+", m.group(1))]}
+    # no schedule loses an update among those on which both calls return: is there one after which a call never returns?
+    body = CASES_HDR
+    for i, (a, b, init, want) in enumerate(pairs):
+        body += "Definition s%d := Eval vm_compute in find_spin2 (fun _ => (%d)%%Z) [%s] %s %s %d 80.\nPrint s%d.\n" % (
+            i, init, sec, zl([a] * nargs), zl([b] * nargs), k, i)
+    ok, out, err = common.coq_cases("c10_witness_spin", body)
+    if not ok:
+        return None
+    for i, (a, b, init, want) in enumerate(pairs):
+        m = re.search(r"s%d\s*=\s*Some\s*(\[[^\]]*\])" % i, out)
+        if m:
+            return {"values": [a, b], "init": init, "true_value": want, "schedule": [int(x) for x in re.findall(r"\d+", m.group(1))],
+                    "never_returns": "after this schedule the two calls, each run alone for 80 more steps, have not both returned: a retry that cannot succeed any more"}
     return None
 
 
@@ -197,11 +210,16 @@ def seq_cases(tabs, rng, n):
 def run_seq_correspondence(rp, tabs, rng, n):
     cases = seq_cases(tabs, rng, n)
     req = {"mode": "seq", "cases": [[{"f": HARNESS_FUNCS[pkg] + p["func"], "args": a} for pkg, p, a in cs] for cs in cases]}
-    pr = common.vh(["conc"], input=json.dumps(req), timeout=300)
-    if pr.returncode != 0 or not pr.stdout.strip():
-        rp.violation({"kind": "harness", "detail": pr.stderr[-2000:]}, "seq_harness", no_input=True)
+    rc, out_, err_, hung = run_watch(common.stage_harness(), req, 120)
+    if hung:
+        note_hang("the sequential replay of Record* call sequences did not finish within 120 s")
+        rp.violation({"kind": "hang", "mode": "seq", "cases": len(cases), "goroutines": blocked_goroutines(err_, running=True)[:6],
+                      "explanation": "Record* calls made one after the other by a single goroutine did not return (watchdog 120 s)"}, "seq_hang", no_input=True)
         return 0
-    results = json.loads(pr.stdout)["results"]
+    if rc != 0 or not out_.strip():
+        rp.violation({"kind": "harness", "detail": err_[-2000:]}, "seq_harness", no_input=True)
+        return 0
+    results = json.loads(out_)["results"]
     terms = []
     for cs, r in zip(cases, results):
         # one model memory per package: locations of the two structs are numbered independently, so check per package
@@ -328,18 +346,22 @@ def run_watch(binp, req, watchdog, env=None):
         return p.returncode, out, err, True
 
 
-def blocked_goroutines(dump):
-    """goroutines of a SIGQUIT dump that are blocked in a mutex operation: [{wait, count, frames}] by library frames"""
+def blocked_goroutines(dump, running=False):
+    """goroutines of a SIGQUIT dump that are blocked in a mutex operation (running=True: also those still running inside
+    the library — a call that spins): [{wait, count, frames}] by library frames"""
     groups = {}
     for block in re.split(r"\n\s*\n(?=goroutine \d+)", dump):
         m = re.match(r"\s*goroutine \d+(?: gp=\S+ m=\S+(?: mp=\S+)?)? \[([^\]]*)\]", block)
         if not m:
             continue
         wait = m.group(1).split(",")[0]
-        if not re.search(r"Mutex|semacquire|sync\.Cond|chan |select", wait):
+        spinning = running and re.search(r"running|runnable", wait)
+        if not re.search(r"Mutex|semacquire|sync\.Cond|chan |select", wait) and not spinning:
             continue
         frames = [re.sub(r"^.*?/pkg/", "pkg/", w) for w in re.findall(r"(?m)^\s+(\S+?/pkg/\S+?\.go:\d+)", block) if "/harness-src" not in w]
         funcs = [f.split("/")[-1] for f in re.findall(r"(?m)^(\S+)\(.*\)\n\s+\S+?/pkg/\S+?\.go:\d+", block)]
+        if spinning and not frames:
+            continue
         key = (wait, tuple(frames[:3]))
         g = groups.setdefault(key, {"wait": wait, "count": 0, "frames": frames[:3], "funcs": funcs[:3]})
         g["count"] += 1
@@ -353,6 +375,8 @@ def run_mix(n, k, seed, inputs, ops=None, race=True, timeout=900):
         req["ops"] = ops
     env = dict(os.environ, GORACE="halt_on_error=0 exitcode=66")
     binp = common.stage_harness(race=race)
+    if HANGS:
+        timeout = min(timeout, 8)       # the calls are already known not to return: a few seconds, not a full watchdog
     rc, out, err, hung = run_watch(binp, req, timeout, env=env)
     res = None
     if out.strip() and not hung:
@@ -384,20 +408,39 @@ def hang_search(pkg, quick):
     return None, 2
 
 
-def run_rounds(n, rounds, seed, values=None, timeout=900):
+# Once a call of the library has been seen not to return (a retry loop that cannot succeed any more, a deadlock), every
+# later stage that makes the same calls would only sit out its own watchdog: they are skipped (and say so in the evidence).
+HANGS = []
+
+
+def note_hang(what):
+    HANGS.append(what)
+
+
+def rounds_watchdog(rounds):
+    """barrier-released rounds take well under a millisecond each: 20 s + 1 s per 2000 rounds, at most 240 s"""
+    return min(240, 20 + rounds // 2000)
+
+
+def run_rounds(n, rounds, seed, values=None, timeout=None):
+    """(result, stderr); result None = crashed or did not finish (stderr then says "did not finish" and names the
+    goroutines that were still inside the library).  Never raises on a hang."""
     req = {"mode": "rounds", "n": n, "rounds": rounds, "seed": seed}
     if values:
         req["values"] = values
-    import subprocess
-    try:
-        # barrier-released rounds normally finish in seconds: a run that does not is a hang (a recording that never
-        # returns, e.g. a retry loop that cannot succeed any more), reported like a crash with the rounds as the replay
-        pr = common.vh(["conc"], input=json.dumps(req), timeout=min(timeout, 240))
-    except subprocess.TimeoutExpired:
-        return None, "fatal error: the barrier-released rounds did not finish within %d s (a recording call never returned)" % min(timeout, 240)
-    if pr.returncode != 0 or not pr.stdout.strip():
-        return None, pr.stderr
-    return json.loads(pr.stdout.strip().splitlines()[-1]), pr.stderr
+    if HANGS:
+        return None, "skipped: " + HANGS[0]
+    wd = timeout or rounds_watchdog(rounds)
+    rc, out, err, hung = run_watch(common.stage_harness(), req, wd)
+    if hung:
+        gs = blocked_goroutines(err, running=True)
+        msg = "fatal error: the barrier-released rounds did not finish within %d s (a recording call never returned); goroutines inside the library: %s" % (
+            wd, "; ".join("%d x %s at %s (%s)" % (g["count"], g["wait"], g["frames"][0], (g["funcs"] or ["?"])[0]) for g in gs if g["frames"])[:600])
+        note_hang("barrier-released concurrent recordings did not finish within %d s" % wd)
+        return None, msg
+    if rc != 0 or not out.strip():
+        return None, err
+    return json.loads(out.strip().splitlines()[-1]), err
 
 
 def cpus():
@@ -426,7 +469,10 @@ def run(tier):
     quick = tier == "quick"
     if not quick and ok_props:
         # independent re-check of the compiled property file and everything it depends on
-        pc = common.run(["timeout", "1200", "coqchk", "-silent", "-o", "-R", "theories", "GV", "GV.Props.C10"], cwd=common.COQ, timeout=1300)
+        try:
+            pc = common.run(["timeout", "1200", "coqchk", "-silent", "-o", "-R", "theories", "GV", "GV.Props.C10"], cwd=common.COQ, timeout=1300)
+        except subprocess.TimeoutExpired:
+            pc = subprocess.CompletedProcess([], 124, "", "coqchk did not finish within 1300 s")
         okc = pc.returncode == 0 and "* Axioms: <none>" in (pc.stdout + pc.stderr)
         rp.obligation("coqchk -o GV.Props.C10: accepted, no axioms, no assumed positivity/guardedness", okc, (pc.stdout + pc.stderr)[-300:])
         if not okc:
@@ -459,8 +505,11 @@ def run(tier):
         w = witness_search(tabs, pkg, p, s, role) if s["kind"] == "rmw" and ok_inst is not None else None
         if w:
             base["model_witness"] = w     # the model's own refutation: a two-goroutine schedule that loses the update
+            if w.get("never_returns"):
+                d = "a lost compare-and-swap is retried without refreshing the value it expects (the reload does not go into the register the next swap compares with): the call spins for ever once it loses to another recording"
+                base["defect"] = d
         found = None
-        if w and pkg == "pkg/metrics" and p["func"] == "RecordTokenization" and role in ("RMax", "RMin"):
+        if w and pkg == "pkg/metrics" and p["func"] == "RecordTokenization" and role in ("RMax", "RMin") and not HANGS:
             # the model's witness schedule as a real two-goroutine attempt (barrier-released, many rounds)
             base["model_witness"] = w
             for attempt in range(3 if quick else 10):
@@ -474,7 +523,7 @@ def run(tier):
                     found = {"mode": "rounds", "n": 2, "values": vals, "rounds": res["rounds"], "seed": common.seed() + attempt,
                              "failed_rounds": res["failed_rounds"], "fail_count": res["fail_count"], "first": res["first"][:1]}
                     break
-        if not found:
+        if not found and not HANGS:
             for n in (2, 4, max(2, nc // 2)):
                 res, rerr = run_rounds(n, 20000 if quick else 200000, common.seed())
                 evals += 1
@@ -488,11 +537,12 @@ def run(tier):
         if found:
             base.update(found)
             if found.get("hang"):
-                base["explanation"] = "%s — reproduced on the implementation: barrier-released concurrent recordings never finish (a recording call does not return)" % d
+                base["explanation"] = "%s — reproduced on the implementation: barrier-released concurrent recordings never finish (a recording call does not return): %s" % (d, found["hang"][:700])
             else:
                 base["explanation"] = "%s — reproduced on the implementation: after %d of %d barrier-released rounds the totals reported by GetStats differ from the true values" % (d, found["failed_rounds"], found["rounds"])
         else:
-            base["explanation"] = d + " — the instance lemma no longer holds for the regenerated program" + ("; the model loses an update on the schedule in model_witness" if w else "")
+            base["explanation"] = d + " — the instance lemma no longer holds for the regenerated program" + ("; the model loses an update on the schedule in model_witness" if w else "") + (
+                "; not tried on the implementation: " + HANGS[0] if HANGS else "")
             if w:
                 base["model_witness"] = w
         rp.violation(base, "shape_" + name, no_input=not found)
@@ -549,7 +599,7 @@ def run(tier):
         found = None
         inputs_t = workload(random.Random(common.seed()), "quick")[:30]
         searches += 1
-        for n in ((4, nc) if searches <= 4 else ()):
+        for n in ((4, nc) if searches <= 4 and not HANGS else ()):
             rc, res, races, err = run_mix(n, 300, common.seed() + n, inputs_t, ops=ops)
             evals += 1
             hit = [r for r in races if any(w.split(":")[0] in files for w in r["where"])]
@@ -599,8 +649,10 @@ def run(tier):
                     rows[0]["mutex"], rows[0]["pos"], rows[0]["func"], ", ".join(rows[0]["may_held"]), [c for c in lt["comps"] if mutex in c][:1]))
         base = {"kind": "table-gap", "theorem": "Inst_C10.lock_order_ok (C10_no_deadlock_by_lock_order)", "mutex": mutex, "rows": rows[:8],
                 "model_witness": "Props.C10.C10_reentrant_read_lock_refuted" if reacq else "Props.C10.C10_lock_order_inversion_refuted"}
-        found, _ = hang_search(pkgc, quick)
-        evals += 1
+        found = None
+        if not HANGS:
+            found, _ = hang_search(pkgc, quick)
+            evals += 1
         if found:
             base.update(found)
             lock_hang = True
@@ -623,6 +675,9 @@ def run(tier):
     # ---- fixed / known findings: witnesses
     for k in kf:
         w = k.get("witness") or {}
+        if HANGS and w.get("mode") in ("rounds", "mix"):
+            rp.cov["notes"].append("witness of %s not replayed: %s" % (k["key"], HANGS[0]))
+            continue
         if w.get("mode") == "rounds":
             res, err = run_rounds(w["n"], w["rounds"] if not quick else min(w["rounds"], 30000), common.seed(), values=w.get("values"))
             evals += 1
@@ -648,8 +703,16 @@ def run(tier):
     plan = [(2, total_rounds // 2), (min(4, nc), total_rounds // 4), (max(2, nc // 2), total_rounds // 8), (nc, total_rounds // 16), (4 * nc, max(200, total_rounds // 100))]
     rounds_done, rounds_samples = 0, []
     for n, r in plan:
+        if HANGS:
+            rp.cov["notes"].append("barrier-released rounds not run (n=%d and larger): %s" % (n, HANGS[0]))
+            break
         res, err = run_rounds(n, r, common.seed() + n)
         evals += 1
+        if res is None and "did not finish" in (err or ""):
+            if not any("shape_" in v for v in rp.violations):
+                rp.violation({"kind": "hang", "mode": "rounds", "n": n, "rounds": r, "seed": common.seed() + n, "hang": err[:1500],
+                              "explanation": "barrier-released concurrent recordings never finish (a recording call does not return): " + err[:700]}, "rounds_hang_n%d" % n)
+            continue
         if res is None:
             fatal = parse_races(err or "")
             if not any("rounds_crash" in v for v in rp.violations):
@@ -673,9 +736,12 @@ def run(tier):
     seen = set()
     race_files = {w.split(":")[0] for h in race_hits.values() for w in h["where"][:2]}
     for n in [2, nc, 4 * nc]:
+        if HANGS and not lock_hang:
+            rp.cov["notes"].append("goroutine mixes not run (n=%d and larger): %s" % (n, HANGS[0]))
+            break
         kk = max(20, k * 2 // n) if n > 8 else k
         # a mix normally takes seconds (quick) / a few minutes (thorough); once a lock-order violation hung a search, do not wait long again
-        rc, res, races, err = run_mix(n, kk, common.seed() + n, inputs, timeout=(90 if lock_hang else (600 if quick else 1500)))
+        rc, res, races, err = run_mix(n, kk, common.seed() + n, inputs, timeout=(15 if lock_hang else (600 if quick else 1500)))
         evals += (res or {}).get("calls", 0)
         if rc == HUNG:
             if not lock_hang:
@@ -686,6 +752,7 @@ def run(tier):
                                   n, "; ".join("%d x %s at %s" % (g["count"], g["wait"], g["frames"][0] if g["frames"] else "?") for g in bg[:4]))},
                              "mix_hang_n%d" % n)
             mixes.append({"n": n, "ops_per_goroutine": kk, "exit": "watchdog"})
+            note_hang("a goroutine mix did not finish")
             if lock_hang:
                 break      # the hang is already reported with the lock-order rows: the larger mixes would only hang again
             continue
@@ -747,9 +814,10 @@ def replay(path):
     print(json.dumps({k: (v if not isinstance(v, (str, list)) or len(str(v)) < 400 else str(v)[:400] + "...") for k, v in d.items()}, indent=1))
     mode = d.get("mode")
     if mode == "rounds":
+        del HANGS[:]
         res, err = run_rounds(d["n"], d["rounds"], d.get("seed", 1), values=d.get("values"))
-        print(json.dumps(res))
-        return 1 if (res is None or res["failed_rounds"]) else 0
+        print(json.dumps(res) if res is not None else (err or "")[:1500])
+        return 1 if (res is None or res["failed_rounds"]) else 0      # not finishing within the watchdog = fails
     if mode == "mix_watchdog":
         rc, res, races, err = run_mix(d["n"], d["ops_per_g"], d.get("seed", 1), d["inputs"], ops=d.get("ops"), race=False, timeout=d.get("watchdog_s", 60))
         print(json.dumps({"exit": "watchdog: did not finish" if rc == HUNG else rc, "blocked_goroutines": blocked_goroutines(err)[:6] if rc == HUNG else []}, indent=1))
@@ -760,7 +828,7 @@ def replay(path):
         return 1 if (rc != 0 or races or res is None or res["mismatches"] or res["bad_totals"]) else 0
     if mode == "seq":
         req = {"mode": "seq", "cases": [d["calls"]]}
-        pr = common.vh(["conc"], input=json.dumps(req))
-        print(pr.stdout[:2000])
-        return 2
+        rc, out_, err_, hung = run_watch(common.stage_harness(), req, 120)
+        print("did not finish within 120 s" if hung else out_[:2000])
+        return 1 if hung else 2
     return 2
